@@ -12,7 +12,7 @@ from . import c06, core, gen, known
 from .driver import drive, write_replay
 from .runner import run_isolated, parallel_jobs
 
-RUNS = {'quick': 9000, 'thorough': 200000}
+RUNS = {'quick': 30000, 'thorough': 600000}
 # stage 2: batches x cases per batch x interpreters
 STAGE2 = {'quick': (12, 40, 8), 'thorough': (48, 60, 64)}
 LOGIC_MIX = {'quick': ['CTL'] * 6 + ['CTLS'] * 3 + ['LTL'] * 1,
